@@ -34,11 +34,15 @@ static void exec(vh::Rng & r, vh::Out & out)
   for (int p = 0; p < nproblems; ++p) {
     // data sizes: mostly small, sometimes anywhere up to 500, sometimes at / next to the block sizes a vectorised or blocked
     // reduction would use (powers of two, multiples of 128) and at the top of the quantified range
-    int n = (int)(r.coin(1, 12) ? r.range(est, 500) : r.coin(1, 10) ? r.pick(IV{16, 32, 64, 127, 128, 129, 255, 256, 257, 383, 384, 385, 499, 500}) :
+    int n = (int)(r.coin(1, 8) ? est : r.coin(1, 12) ? r.range(est, 500) : r.coin(1, 10) ? r.pick(IV{16, 32, 64, 127, 128, 129, 255, 256, 257, 383, 384, 385, 499, 500}) :
       r.range(est, est + 30));
+    // est 2, sometimes: two exactly orthogonal columns (+1.., +1 -1 +1 -1..) over an even number of rows - the normal matrix is exactly
+    // diagonal whatever the scale of each column, so its inverse and the covariance are exact in either precision
+    const bool ortho = est == 2 && r.coin(1, 5);
+    if (ortho) {n = (int)r.pick(IV{4, 16, 64, 130, 256, 300, 500});}
     // a caller may keep the references the non-const accessors hand out and write the next problem of the same size through them,
     // without announcing anything to the solver
-    const bool silent = p > 0 && Jref && r.coin(1, 3);
+    const bool silent = !ortho && p > 0 && Jref && r.coin(1, 3);
     if (silent) {n = lastN;}
     bool grew = false;
     if (!silent) {
@@ -67,7 +71,7 @@ static void exec(vh::Rng & r, vh::Out & out)
     IV z(est); for (auto & v : z) {v = r.range(-9, 9);}
     std::vector<IV> rows(n, IV(est, 0));
     IV y(n, 0), w(n, 1);
-    bool weighted = r.coin(1, 3);
+    bool weighted = r.coin(1, 3) && !(est == 2 && false);
     // the whole problem (J and Y) scaled by a power of two: the minimiser is unchanged, the arithmetic stays exact
     const double pscale = r.coin(1, 4) ? (sizeof(R) == 8 ? r.pick(std::vector<double>{std::ldexp(1.0, -23), std::ldexp(1.0, -12), 1024.0}) :
       r.pick(std::vector<double>{std::ldexp(1.0, -12), 64.0})) : 1.0;
@@ -75,7 +79,18 @@ static void exec(vh::Rng & r, vh::Out & out)
     // quantified range (double) / up to where the float normal equations still determine the answer.  Only without preconditioner.
     std::vector<int> cs(est, 0);
     bool identityPre = true; for (int k = 0; k < est; ++k) {identityPre = identityPre && A[k] == 1 && B[k] == 0;}
-    const bool colscale = identityPre && est >= 2 && pscale == 1.0 && r.coin(1, 3);
+    const bool colscale = identityPre && est >= 2 && pscale == 1.0 && (r.coin(1, 3) || ortho);
+    if (ortho) {
+      for (int i = 0; i < n; ++i) {rows[i][0] = 1; rows[i][1] = i % 2 ? -1 : 1;}
+    } else if (n == est && est >= 2 && r.coin(2, 3)) {
+      // an exactly determined problem with a general (non-symmetric, non-diagonal) square matrix of full rank
+      for (;;) {
+        Eigen::MatrixXd M(est, est);
+        for (int i = 0; i < est; ++i) {for (int k = 0; k < est; ++k) {rows[i][k] = r.range(-3, 3); M(i, k) = (double)rows[i][k];}}
+        Eigen::JacobiSVD<Eigen::MatrixXd> sv(M);
+        if (sv.singularValues()(est - 1) > 0.2 && sv.singularValues()(0) / sv.singularValues()(est - 1) < 40) {break;}
+      }
+    } else
     for (int i = 0; i < n; ++i) {
       if (i < est) {rows[i][i] = r.range(1, 3);} else if (i % 2 == 1 && i > est && r.coin()) {rows[i] = rows[i - 1];}      // duplicated row
       else {for (auto & v : rows[i]) {v = r.range(-3, 3);}}
@@ -141,7 +156,7 @@ static void exec(vh::Rng & r, vh::Out & out)
         xi.push_back(std::isfinite(rv) && std::fabs(rv) < 1e9 ? (long long)rv : 0);
       }
       out.put(vh::Ev("estimate").str("how", how).vec("x", xi).b("exact", ok));
-      if (est <= 2 && n <= 60 && pscale == 1.0 && !colscale) {
+      if (est <= 2 && (n <= 60 || ortho) && pscale == 1.0 && (!colscale || ortho)) {
         long long var = r.pick(IV{1, 2, 4});
         // the covariance may be asked for several times (a-priori and a-posteriori variance): every answer is for the last estimate
         auto C = ls->computeEstimateCovariance((R)var);
@@ -150,13 +165,25 @@ static void exec(vh::Rng & r, vh::Out & out)
         double jtj[2][2] = {{0, 0}, {0, 0}};
         for (int i = 0; i < n; ++i) {for (int a = 0; a < est; ++a) {for (int b = 0; b < est; ++b) {
               jtj[a][b] += (double)ls->getJ()(i, a) * (double)ls->getJ()(i, b);}}}
+        // what the solver inverted (columns possibly scaled by 2^-c): its condition number decides the rounding of the inverse,
+        // unless it is exactly diagonal
+        const bool diagonal = est == 1 || (jtj[0][1] == 0 && jtj[1][0] == 0);
+        const double trS = est == 1 ? jtj[0][0] : jtj[0][0] + jtj[1][1];
+        const double detS = est == 1 ? jtj[0][0] : jtj[0][0] * jtj[1][1] - jtj[0][1] * jtj[1][0];
+        // back to the unscaled columns the specification knows: J^T J and the covariance scale by 2^(c_a + c_b) / 2^-(c_a + c_b)
+        for (int a = 0; a < est; ++a) {for (int b = 0; b < est; ++b) {jtj[a][b] = std::ldexp(jtj[a][b], cs[a] + cs[b]); C(a, b) = (R)std::ldexp((double)C(a, b), -cs[a] - cs[b]);}}
         double det = est == 1 ? jtj[0][0] : jtj[0][0] * jtj[1][1] - jtj[0][1] * jtj[1][0];
         std::vector<IV> cd(est, IV(est, 0)); bool okc = true;
+        // the inverse of the normal matrix carries a relative rounding error of its condition number times the machine epsilon
+        const double condJtJ = diagonal ? 0.0 : (detS > 0 ? trS * trS / detS : 1e300);
+        double cmax = 0; for (int a = 0; a < est; ++a) {for (int b = 0; b < est; ++b) {cmax = std::max(cmax, std::fabs((double)C(a, b) * det));}}
+        const double tolc = (sizeof(R) == 4 ? 2e-3 : 1e-7) * std::max(1.0, std::fabs(det)) + 16.0 * (double)std::numeric_limits<R>::epsilon() * condJtJ * cmax;
         for (int a = 0; a < est; ++a) {for (int b = 0; b < est; ++b) {
             double v = (double)C(a, b) * det, rv = std::nearbyint(v);
-            if (!(std::fabs(v - rv) <= (sizeof(R) == 4 ? 2e-3 : 1e-7) * std::max(1.0, std::fabs(det)))) {okc = false;}
+            if (!(std::fabs(v - rv) <= tolc)) {okc = false;}
             cd[a][b] = std::fabs(rv) < 2e9 ? (long long)rv : 0;}}
-        if (std::fabs(det) < 2e9 && det > 0) {
+        // (too ill conditioned for this precision to pin the integers: not decided)
+        if (std::fabs(det) < 2e9 && det > 0 && tolc < 0.25) {
           out.put(vh::Ev("cov").i("var", var).i("det", (long long)std::nearbyint(det)).mat("cdet", cd).b("exact", okc));
         }
       }
